@@ -7,7 +7,7 @@ use vlab::engine::report::{self, Check, Tier};
 fn parts(tier: Tier) -> Vec<(TKind, usize)> {
     match tier {
         Tier::Quick => vec![(TKind::Model, 5), (TKind::MmioModern, 3)],
-        Tier::Thorough => vec![(TKind::Model, 7), (TKind::MmioLegacy, 4), (TKind::MmioModern, 4), (TKind::Pci, 4)],
+        Tier::Thorough => vec![(TKind::Model, 6), (TKind::MmioLegacy, 4), (TKind::MmioModern, 4), (TKind::Pci, 4)],
     }
 }
 
